@@ -311,7 +311,9 @@ func keysOf(m map[string]string) []string {
 var flatKeySets = [][]string{{"a"}, {"é"}, {"a.b"}, {"a", "b"}, {"a.a", "a.b"}, {"a.b", "b"}, {"b.a.a", "b.a.b"}, {"a", "b.é"}}
 
 func valueStrings(n int, f func(v string)) {
-	raw := []string{"a", `"`, `\`, "/", "\n", "\t", "\x01", "é", "<", "\u2028", "😀", "\U00010000", "\uffff", "\x7f"}
+	// (incl. the characters that are STRUCTURE outside a JSON string: a writer or formatter that loses
+	// track of "inside a string" treats them as such)
+	raw := []string{"a", `"`, `\`, "/", "\n", "\t", "\x01", "é", "<", "\u2028", "😀", "\U00010000", "\uffff", "\x7f", ",", ":", "{", "}", "[", " "}
 	var rec func(cur string, left int)
 	rec = func(cur string, left int) {
 		f(cur)
@@ -777,7 +779,7 @@ var _ = bytes.Contains
 
 func init() {
 	fw.Register(&fw.Check{ID: "C20", Level: "exploration",
-		Rule: "all nested maps over keys {a,b,é}, and over {'' (the empty string), a}, with depth<=3 and <=3 (quick) / <=4 (thorough) leaves (the flat key '' alone is refused by the rebuild functions with an explicit error, which is accepted), plus deep maps (spine of depth 1..12 / 1..20 with 1-3 sibling leaves at the bottom, with and without a side leaf per level) (flatten/rebuild both ways, string variant); all JSON documents of 4 nested-object shapes whose string leaf ranges over every string of <=2 (quick) / <=3 (thorough) symbols from {a, quote, backslash, slash, newline, tab, U+0001, é, U+1F600} in every JSON spelling (incl. surrogate pairs) (raw and escaped), plus every number literal of <=5 (thorough 6) characters over {0,1,-,+,.,e,E} that the JSON grammar allows, and true/null/array leaves, compared with encoding/json (UseNumber); all flat maps from 8 prefix-free key sets x every value string of <=2/3 symbols from {a, quote, backslash, slash, newline, tab, 0x01, é, '<', U+2028, U+1F600, U+10000, U+FFFF, 0x7f} written compact and formatted (valid for encoding/json, same map, round trip); plus EVERY prefix-free set of <=3/<=4 keys from all 30 paths of depth <=2 over the segments {s, s1, s10, s-, é} (names that are prefixes of one another or sort around the separator); translation loader on 14 directory layouts (1-4 files, 1-40 keys per file; sub-directories as the loaded base in three spellings; escaped values; look-alike file names that must not be loaded) under every schedule with <= bound preemptions, with the race oracle on the loader's and the store's multi-word variables (incl. variables captured by the per-file callback). distinct = inputs/schedules",
+		Rule: "all nested maps over keys {a,b,é}, and over {'' (the empty string), a}, with depth<=3 and <=3 (quick) / <=4 (thorough) leaves (the flat key '' alone is refused by the rebuild functions with an explicit error, which is accepted), plus deep maps (spine of depth 1..12 / 1..20 with 1-3 sibling leaves at the bottom, with and without a side leaf per level) (flatten/rebuild both ways, string variant); all JSON documents of 4 nested-object shapes whose string leaf ranges over every string of <=2 (quick) / <=3 (thorough) symbols from {a, quote, backslash, slash, newline, tab, U+0001, é, U+1F600} in every JSON spelling (incl. surrogate pairs) (raw and escaped), plus every number literal of <=5 (thorough 6) characters over {0,1,-,+,.,e,E} that the JSON grammar allows, and true/null/array leaves, compared with encoding/json (UseNumber); all flat maps from 8 prefix-free key sets x every value string of <=2/3 symbols from {a, quote, backslash, slash, newline, tab, 0x01, é, '<', U+2028, U+1F600, U+10000, U+FFFF, 0x7f, comma, colon, braces, bracket, blank} written compact and formatted (valid for encoding/json, same map, round trip); plus EVERY prefix-free set of <=3/<=4 keys from all 30 paths of depth <=2 over the segments {s, s1, s10, s-, é} (names that are prefixes of one another or sort around the separator); translation loader on 14 directory layouts (1-4 files, 1-40 keys per file; sub-directories as the loaded base in three spellings; escaped values; look-alike file names that must not be loaded) under every schedule with <= bound preemptions, with the race oracle on the loader's and the store's multi-word variables (incl. variables captured by the per-file callback). distinct = inputs/schedules",
 		Run: run, Replay: replay,
 		Assumptions: []string{"encoding/json is the reference JSON decoder", "loader values are %-free (Translate is a format API)", "2-3 preemptions, MaxJob 1-2 for the loader"}})
 }
